@@ -146,6 +146,10 @@ def cases(tier, seed):
                                 "mode": mode,
                             }
                         )
+                        if kind == "q8" and n == m and m <= 5:
+                            for e in (-40, 40):  # whole-matrix power-of-two scaling: elimination stays exact
+                                out.append({"key": f"forced/m={m}/n={n}/sigma={''.join(map(str, sigma))}/{kind}/{mode}/scale=2^{e}", "cls": "forced", "m": m, "n": n,
+                                            "sigma": list(sigma), "kind": kind, "mode": mode, "scale": e})
     S = 4 if tier == "quick" else 5
     for m in range(1, S + 1):
         for n in range(1, S + 1):
@@ -261,7 +265,9 @@ def run_case(case, seed):
     path = None
     if cls == "forced":
         sigma = case["sigma"]
-        L0, U0 = build_LU0(m, n, case["kind"], seed, case["key"].rsplit("/", 1)[0])
+        L0, U0 = build_LU0(m, n, case["kind"], seed, "/".join(case["key"].split("/")[:5]))
+        if case.get("scale"):
+            U0 = np.ldexp(U0, case["scale"])
         LU0 = O.qmatmul(L0, U0)
         A = LU0[list(sigma)]  # row r of A holds row sigma(r) of L0 U0
         IP, order, swaps = model_run(sigma, m, N)
